@@ -478,6 +478,14 @@ def exec_part_a(ctx, drv, exes, cases, add_sweep=True):
                     ctx.log("model/impl disagree (%s, %s)\n  case : %s\n  model: %s\n  impl : %s" % (fl, kind, line[:300], mouts[i + 1][:600], impl[:600]))
                     ctx.broken_tie("correspondence:%s:%s" % (kind, fl), "model and real jpeg_memory_mgr differ on: %s || model=%s || impl=%s" % (
                         line[:400], mouts[i + 1][:300], impl[:300]))
+            if line.startswith("vacc") and impl and fl == list(exes)[0]:
+                d = ctx.cov.setdefault("vacc_distribution", {"window_with_backing_store": 0, "whole_array_in_memory": 0, "with_swap_out": 0,
+                                                             "with_swap_in": 0, "bad_virtual_access": 0, "prezero_read_ahead": 0})
+                d["window_with_backing_store" if " open=1 " in impl else "whole_array_in_memory"] += 1
+                d["with_swap_out"] += " x=[W" in impl
+                d["with_swap_in"] += bool(re.search(r"x=\[(W\S+ )*R", impl))
+                d["bad_virtual_access"] += "; bad" in impl
+                d["prezero_read_ahead"] += bool(re.search(r"\[[-\d ]* 0\]", impl))
             key = re.sub(r"=\d+", "=", impl.split(" || ")[0])[:400] if impl else None
             ctx.count("mm-" + kind + ":" + fl, 1, ("mm", key))
             if i % 499 == 0 and fl == list(exes)[0]:
